@@ -66,3 +66,4 @@ revert 2b52f2e C16
 revert c46cc13 C07
 revert 832ce1a C09
 revert bd477b6 C05
+revert 44f4b4d C08
